@@ -59,7 +59,7 @@ verif_harness! {
     }
 }
 
-//@ harness name=cast5_roundtrip_ed prop=C01,C20 tier=quick bits=705 est=200 solver=kissat cap=3600 desc="D: decrypt_block(encrypt_block(b)) == b on an arbitrary state (superset of all accepted keys, both round counts), all blocks"
+//@ harness name=cast5_roundtrip_ed prop=C01,C20 tier=quick bits=705 est=200 solver=kissat cap=1800 desc="D: decrypt_block(encrypt_block(b)) == b on an arbitrary state (superset of all accepted keys, both round counts), all blocks"
 verif_harness! {
     name: cast5_roundtrip_ed,
     bytes: 89,
@@ -73,7 +73,7 @@ verif_harness! {
     }
 }
 
-//@ harness name=cast5_roundtrip_de prop=C01,C20 tier=quick bits=705 est=200 cap=3600 desc="D: encrypt_block(decrypt_block(b)) == b on an arbitrary state, all blocks"
+//@ harness name=cast5_roundtrip_de prop=C01,C20 tier=quick bits=705 est=200 cap=1800 desc="D: encrypt_block(decrypt_block(b)) == b on an arbitrary state, all blocks"
 verif_harness! {
     name: cast5_roundtrip_de,
     bytes: 89,
